@@ -2,7 +2,7 @@
     Only ExtrOcamlBasic (bool, option, unit, list, prod, sumbool mapped to OCaml's);
     no Extract Constant; nat/N/Z/positive stay the extracted inductives. *)
 From Coq Require Import ExtrOcamlBasic.
-From SFV Require Import Log.Ring Base.F64 Api.IntDeser NanBox.NanBox Gen.NanBoxGen Base.Bytes Read.Lazy Read.ReadRun Msgpack.Wire Read.ReadSpec Msgpack.Rmp Write.Writer Msgpack.Tree Write.WSpec Write.Grammar Read.ReadSafe Ctx.Interner Ctx.Context Ctx.Threads Gen.StaticsGen Gen.LogGen Api.Typed Api.ApiLen Tramp.WasmMini Gen.GlueGen Tramp.RewriteTypes Tramp.Rewrite Tramp.RewriteSpec Tramp.RewriteInst.
+From SFV Require Import Log.Ring Base.F64 Api.IntDeser NanBox.NanBox Gen.NanBoxGen Base.Bytes Read.Lazy Read.ReadRun Msgpack.Wire Read.ReadSpec Msgpack.Rmp Write.Writer Msgpack.Tree Write.WSpec Write.Grammar Read.ReadSafe Read.SeqSpec Ctx.Interner Ctx.Context Ctx.Threads Gen.StaticsGen Gen.LogGen Api.Typed Api.ApiLen Tramp.WasmMini Gen.GlueGen Tramp.RewriteTypes Tramp.Rewrite Tramp.RewriteSpec Tramp.RewriteInst.
 Extraction Language OCaml.
 Set Extraction KeepSingleton.
 Separate Extraction
@@ -10,7 +10,7 @@ Separate Extraction
   NanBox.encode NanBox.nb_bool NanBox.nb_null NanBox.nb_string NanBox.nb_obj NanBox.nb_array NanBox.nb_error NanBox.nb_number NanBox.try_decode
   NanBoxGen.MAX_VALUE_LENGTH NanBoxGen.ErrorCode_variants
   F64.exact_int F64.of_int F64.of_f32 F64.is_nan IntDeser.deser_int IntDeser.int_min IntDeser.int_max
-  ReadRun.exec ReadRun.rinit ReadRun.run ReadSpec.spec_run ReadSpec.refs_ok Wire.enc Wire.wf Wire.no_nan ReadSafe.fuel_bs
+  ReadRun.exec ReadRun.rinit ReadRun.run ReadSpec.spec_run ReadSpec.refs_ok Wire.enc Wire.wf Wire.no_nan ReadSafe.fuel_bs SeqSpec.seq_run SeqSpec.nat_exec
   Writer.init Writer.step Writer.finalize Writer.intern WSpec.sinit WSpec.spec_step WSpec.spec_finalize WSpec.flatten Tree.dec_doc Tree.enc_tree Tree.wf_tree
   Context.lstep Context.c0 Context.erase_id Threads.wstep Threads.w0 Threads.ret_area_global_of Threads.all_mutable_thread_local StaticsGen.statics LogGen.CAPACITY Interner.iget
   Typed.serialize Typed.deser Typed.tree_of Typed.canon Typed.has_type_w Typed.opt_ok Typed.ser_ok ApiLen.api_len ApiLen.api_str_len Lazy.get_val_len Lazy.read_str Lazy.get_obj_key_at_index
